@@ -64,9 +64,13 @@ func init() {
 	}
 }
 
-var hdrNames = []string{"X-K", "X-Ver", "Accept", "x-k", "Content-Type", "X-K", "x-ver", "ACCEPT"}
-var hdrExprs = []string{"", "^v[0-9]$", "json", "^(a|b)$", "Chrome", "^$", "1", "(?i)^v1$", "(?i)chrome", "^(?i:a)$", "^zz$", "(?s)^.b.$"}
-var hdrValues = []string{"", "v1", "v22", "application/json", "a", "b", "Chrome/1", "zz", " v1", "v1 ", "\ta", "b\n", " ", "zz, v1", "v1,zz", "x,a", "a, b", "text/html, application/json", "v1;q=1", "a|b", "V1", "CHROME/1", "A", "ZZ", "\nb\n"}
+var hdrNames = []string{"X-K", "X-Ver", "Accept", "x-k", "Content-Type", "X-K", "x-ver", "ACCEPT",
+	// names that proxies, tracing and the standard library like to fill in
+	"X-Request-Id", "X-Request-Start", "X-Forwarded-For", "User-Agent", "Accept-Encoding", "Content-Length", "Connection", "Host", "Date", "Traceparent"}
+var hdrExprs = []string{"", "^v[0-9]$", "json", "^(a|b)$", "Chrome", "^$", "1", "(?i)^v1$", "(?i)chrome", "^(?i:a)$", "^zz$", "(?s)^.b.$",
+	// an expression is a regular expression as it stands: slashes around it are two more characters to match
+	"/^v1$/", "/json/", "/a/"}
+var hdrValues = []string{"", "v1", "v22", "application/json", "a", "b", "Chrome/1", "zz", " v1", "v1 ", "\ta", "b\n", " ", "zz, v1", "v1,zz", "x,a", "a, b", "text/html, application/json", "v1;q=1", "a|b", "V1", "CHROME/1", "A", "ZZ", "\nb\n", "/a/", "application/json/x"}
 
 func genPairs(rng *rand.Rand) []string {
 	if rng.Intn(25) == 0 {
@@ -627,6 +631,7 @@ func judgeHist(w *core.W, c *histCase, prop string) {
 				w.Eval()
 				hit, seen, nf = -1, nil, false
 				rec := httptest.NewRecorder()
+				sent := reqView(req)
 				var pan interface{}
 				func() {
 					defer func() { pan = recover() }()
@@ -634,6 +639,10 @@ func judgeHist(w *core.W, c *histCase, prop string) {
 				}()
 				if pan != nil {
 					w.Violate("serve-panic", c, fmt.Sprintf("step %d: ServeHTTP(%s %q) panicked: %v", si, st.Method, path, pan))
+					return
+				}
+				if got := seenRequest(&hit); hit >= 0 && got != sent {
+					w.Violate("request-rewritten", c, fmt.Sprintf("step %d: the client sent\n   %s\n the route handler saw\n   %s\n(a constraint is judged on the header the request carries; nothing is added to it on the way)", si, sent, got))
 					return
 				}
 				if (hit >= 0) == nf {
